@@ -9,14 +9,17 @@ import (
 
 // CConfig is the configuration of one chainsim run.
 type CConfig struct {
-	World     World    `json:"world"`
-	Replicas  []Policy `json:"replicas"`  // [0] is the quiet reference
-	Chains    int      `json:"chains"`    // appchains registered in the prologue (2..3)
-	Services  int      `json:"services"`  // services per chain (1..2)
-	Users     int      `json:"users"`     // funded plain accounts
-	Twin      bool     `json:"twin"`      // keep a twin replica for "no effect" checks
-	Unordered bool     `json:"unordered"` // register the last service of each chain as un-ordered (batch)
-	Profile   string   `json:"profile"`
+	World       World    `json:"world"`
+	Replicas    []Policy `json:"replicas"`      // [0] is the quiet reference
+	Chains      int      `json:"chains"`        // appchains registered in the prologue (2..3)
+	Services    int      `json:"services"`      // services per chain (1..2)
+	Users       int      `json:"users"`         // funded plain accounts
+	Twin        bool     `json:"twin"`          // keep a twin replica for "no effect" checks
+	Unordered   bool     `json:"unordered"`     // register the last service of each chain as un-ordered (batch)
+	Rules       []string `json:"rules"`         // master rule per chain: happy | bit | fabsim
+	Relay       int      `json:"relay"`         // >0: another BitXHub (id 1357) with this many validators is registered as relay chain
+	NoFabsimCap bool     `json:"no_fabsim_cap"` // lift the per-run cap on proofs handed to the FabricSim validator (only used by the known-finding replay of the validator-pool wedge)
+	Profile     string   `json:"profile"`
 }
 
 // CStep is one symbolic workload step. Operands are resolved against the model at execution time
@@ -28,14 +31,15 @@ type CStep struct {
 	// transfer
 	Amt string `json:"amt,omitempty"` // class: zero one small exact over huge junk
 	// ibtp
-	Pair   int    `json:"pair,omitempty"`   // index into the list of ordered (src service, dst service) pairs
-	Kind   string `json:"kind,omitempty"`   // req | ok | fail | rollback
-	Idx    string `json:"idx,omitempty"`    // next | dup | skip | zero | huge | old
-	T      int64  `json:"t,omitempty"`      // timeout height of a request
-	Proof  string `json:"proof,omitempty"`  // "" valid | absent | badhash
-	Sender string `json:"sender,omitempty"` // "" the right chain admin | other | user
-	Group  int    `json:"group,omitempty"`  // >0: one-to-many group id (model-level), see groups
-	GKeys  []int  `json:"gkeys,omitempty"`  // group: destination pair indexes of all children
+	Pair    int    `json:"pair,omitempty"`    // index into the list of ordered (src service, dst service) pairs
+	Kind    string `json:"kind,omitempty"`    // req | ok | fail | rollback
+	Idx     string `json:"idx,omitempty"`     // next | dup | skip | zero | huge | old
+	T       int64  `json:"t,omitempty"`       // timeout height of a request
+	Proof   string `json:"proof,omitempty"`   // "" valid | absent | badhash | reject (the bound rule refuses it)
+	Signers []int  `json:"signers,omitempty"` // relay hub: validator indexes signing the proof (>=100: unregistered key)
+	Sender  string `json:"sender,omitempty"`  // "" the right chain admin | other | user
+	Group   int    `json:"group,omitempty"`   // >0: one-to-many group id (model-level), see groups
+	GKeys   []int  `json:"gkeys,omitempty"`   // group: destination pair indexes of all children
 	// governance
 	Obj string `json:"obj,omitempty"` // chain | service
 	Act string `json:"act,omitempty"` // freeze | activate | logout
@@ -83,6 +87,14 @@ func Generate(prop string, r *sim.Rand, tier string) *sim.Plan {
 	switch prop {
 	case "C07", "C02", "C03", "C17":
 		cfg.Twin = true
+	}
+	if prop == "C03" || (prop == "C01" && r.Chance(0.3)) || (prop == "C08" && r.Chance(0.5)) {
+		for i := 0; i < cfg.Chains; i++ {
+			cfg.Rules = append(cfg.Rules, []string{"happy", "bit", "bit", "fabsim"}[r.Intn(4)])
+		}
+		if r.Chance(0.5) {
+			cfg.Relay = []int{1, 3, 4, 7}[r.Intn(4)]
+		}
 	}
 	n := r.Range(15, 60)
 	if tier == "thorough" {
@@ -134,6 +146,52 @@ func (g *gen) ibtp() CStep {
 	return s
 }
 
+// proofIBTP: IBTP traffic biased towards proof faults (C03)
+func (g *gen) proofIBTP() CStep {
+	r := g.r
+	s := g.ibtp()
+	s.Idx = "next"
+	s.Sender = ""
+	s.Proof = []string{"", "", "reject", "reject", "absent", "badhash"}[r.Intn(6)]
+	return s
+}
+
+// relayIBTP: an IBTP relayed from the other BitXHub, proven by validator signatures
+func (g *gen) relayIBTP() CStep {
+	r := g.r
+	s := CStep{Op: "relay", Pair: r.Intn(16), Idx: []string{"next", "next", "next", "dup", "skip"}[r.Intn(5)], T: int64(r.Intn(3))}
+	n := g.cfg.Relay
+	k := r.Intn(n + 2)
+	for i := 0; i < k; i++ {
+		switch r.Weighted([]int{6, 1, 1}) {
+		case 0:
+			s.Signers = append(s.Signers, r.Intn(n))
+		case 1:
+			s.Signers = append(s.Signers, 100+r.Intn(3)) // unregistered key
+		case 2:
+			if len(s.Signers) > 0 {
+				s.Signers = append(s.Signers, s.Signers[0]) // duplicate
+			} else {
+				s.Signers = append(s.Signers, 0)
+			}
+		}
+	}
+	if r.Chance(0.1) {
+		s.Proof = []string{"absent", "badhash"}[r.Intn(2)]
+	}
+	return s
+}
+
+// entryIBTP: the same IBTP handed to the interchain contract as a plain invocation
+func (g *gen) entryIBTP() CStep {
+	s := g.ibtp()
+	s.Op = "entry"
+	s.Idx = "next"
+	s.M = []string{"HandleIBTPData", "HandleIBTP"}[g.r.Intn(2)]
+	s.Role = []string{"outsider", "chainadmin", "govadmin"}[g.r.Intn(3)]
+	return s
+}
+
 func (g *gen) transfer() CStep {
 	r := g.r
 	classes := []string{"zero", "one", "small", "small", "exact", "over", "huge", "junk"}
@@ -163,6 +221,23 @@ func (g *gen) cut() CStep { return CStep{Op: "cut"} }
 func (g *gen) step(prop string) []CStep {
 	r := g.r
 	switch prop {
+	case "C03":
+		w := []int{8, 2, 4, 3, 0}
+		if g.cfg.Relay > 0 {
+			w[4] = 5
+		}
+		switch r.Weighted(w) {
+		case 0:
+			return []CStep{g.proofIBTP()}
+		case 1:
+			return []CStep{g.ibtp()}
+		case 2:
+			return []CStep{g.cut()}
+		case 3:
+			return []CStep{g.entryIBTP()}
+		default:
+			return []CStep{g.relayIBTP()}
+		}
 	case "C14":
 		if r.Chance(0.3) {
 			return []CStep{g.cut()}
